@@ -20,7 +20,7 @@ func runC13(c *run.Ctx) {
 		"the schema read back through the public API must pass the harness's independent rule checker (ref.CheckSchema) and equal the generated model; then every rule of a 36-entry mutation catalogue " +
 		"(undefined references, duplicates, ill-formed/reserved names, input/output position mix-ups bare and inside [[T!]], interface conformance breaches, union/empty-type rules, directive location/argument/cycle rules) " +
 		"is applied at sampled applicable positions and each mutant must be refused with an error naming the offender. A mutant is non-trivial by construction; distinct by (SDL text)"
-	n := c.N(150, 5000)
+	n := c.N(200, 5000)
 	reps := c.N(1, 4)
 	muts := gen.SchemaMutations()
 	opts := func(i int) gen.TypeOpts {
